@@ -31,7 +31,7 @@ from sarpy.io.phase_history.cphd1_elements.ProductInfo import ProductInfoType
 from sarpy.io.phase_history.cphd1_elements.GeoInfo import GeoInfoType
 from sarpy.io.complex.sicd_elements.MatchInfo import MatchInfoType
 
-from sarpy.io.phase_history.cphd_schema import get_urn_details, WRITABLE_VERSIONS, \
+from sarpy.io.received.crsd_schema import get_urn_details, WRITABLE_VERSIONS, \
     get_namespace, get_default_tuple
 
 
@@ -511,16 +511,13 @@ class CRSDType(Serializable):
 
     def version_required(self):
         """
-        What CPHD version is required for valid support?
+        What CRSD version is required for valid support?
 
         Returns
         -------
         tuple
         """
 
-        required = (1, 0, 0)
-        for fld in self._fields:
-            val = getattr(self, fld)
-            if val is not None and hasattr(val, 'version_required'):
-                required = max(required, val.version_required())
-        return required
+        # NB: several blocks are shared with CPHD and answer version_required() in CPHD version
+        # numbers ((1, 0, 1), (1, 1, 0)), which say nothing about CRSD. There is a single CRSD version.
+        return get_default_tuple()
